@@ -137,6 +137,20 @@ def path_tag_boundary(ctx, obs):
                            "implementation": pt[k], "model": m, "theorem": "node_record_roundtrip (path_tag / dec_path)"},
                           "stem length tag: implementation writes %s, model %s for stem_len:has_value = %s" % (pt[k], m, k))
     over = {k: pt[k] for k in keys if int(k.split(":")[0]) >= 2 ** 32}
+    # KF-C04-1: above the proved bound the writer truncates the stem length (stem_len as u32).  Reported as the listed
+    # known finding only in exactly that form (tag byte with the explicit-length bit, then (stem_len mod 2^32) big endian);
+    # anything else above the bound is recorded in the notes, and every length below 2^32 was compared with the model above.
+    listed = any(f.get("id") == "KF-C04-1" for f in c.load_known_findings().get("findings", []))
+    trunc = [k for k in over if len(over[k]) == 10 and int(over[k][:2], 16) & 0x80
+             and int(over[k][2:], 16) == int(k.split(":")[0]) % 2 ** 32]
+    if trunc:
+        what = ("write_node_path_and_value_tag truncates a stem length >= 2^32 nibbles to u32 (e.g. %s -> %s): a key of >= 2^31 "
+                "bytes is stored with a wrong length and cannot be read back" % (trunc[0], over[trunc[0]]))
+        if listed:
+            ctx.known_finding("KF-C04-1", what)
+        else:
+            ctx.violation({"case": "write_node_path_and_value_tag(stem_len:has_value = %s)" % trunc[0], "implementation": over[trunc[0]],
+                           "expected": "an error or a faithful length; the stored record must decode to the same stem"}, what)
     ctx.notes["stem_length_boundary"] = {
         "bound": "stems < 2^32 nibbles = inserted keys <= 2^31-1 bytes (key_bound_is_u32_stem)",
         "at_2^32-1": {k: pt[k] for k in inr if k.startswith("4294967295:")},
